@@ -371,6 +371,9 @@ def build(seed, tier, focus='all'):
                  attrs_field="plain", magic_ident=True, rename_all="camelCase")
     root([field("name", V), field("rest", ty("recv", flat_inner), flatten=True)], trait="FromDeriveInput",
          attr_names=["x"], max_items=3, max_attrs=2)
+    # a forward list that leaves `doc` out: doc comments are attributes like any other
+    root([field("max_volume", V, default="trait")], trait="FromField", attr_names=["x"], forward="only", forward_names=["keep"], attrs_field="plain", max_items=1, max_attrs=3)
+    root([], trait="FromTypeParam", attr_names=["x"], forward="only", forward_names=["tool::x", "keep"], attrs_field="plain", magic_ident=True, max_items=1, max_attrs=3)
     # a receiver whose only own member is the flatten member: several attributes still read as one list
     root([field("rest", ty("recv", flat_inner), flatten=True)], trait="FromVariant", attr_names=["x"], magic_ident=True, max_items=2, max_attrs=3)
     root([field("rest", ty("recv", flat_inner), flatten=True), field("hidden", V, skip=True)], trait="FromAttributes", attr_names=["x"], max_items=2, max_attrs=2)
